@@ -232,7 +232,7 @@ def main():
                     d.lookup(rng.choice(texts)[:3], out=reuse)
                     r0 = d.lookup("", out=reuse)
                     if len(r0) != 0 or len(reuse) != 0:
-                        mismatch("history", "lookup('') into a reused list leaves %d morphemes in it" % len(reuse), {})
+                        mismatch("lookup", "lookup('') into a reused list leaves %d morphemes in it" % len(reuse), {})
             except (KeyboardInterrupt, SystemExit):
                 raise
             except BaseException:  # noqa  (PyO3's PanicException derives from BaseException)
